@@ -20,6 +20,7 @@ CONSTANTS Insts,        \* instance OIDs the agent may hold
           Versions,     \* subset of {"v1","v2c","v3"}
           OpsSet, Perturbs, ErrStatuses, MaxTicks,
           PinSecondRead, PinErrIndex, PinGetNextEnd,
+          PinV1ErrBeforeCommunity,   \* SNMPv1 only: the PDU was forced before the security model saw the message   (fixed: F24)
           PinErrBeforeId,   \* the lazily decoded PDU raised its error-status before validate_response_id ran   (fixed: F22)
           IdErrStatuses     \* error-statuses a reply with a perturbed request-id may carry ({0}: none)
 
@@ -70,7 +71,8 @@ vars == <<op, oids, nr, mr, db, ver, perturb, errSt, errIx, errEcho, clock, tick
 OidLists == UNION { [1..k -> ReqOids] : k \in 1..MaxLen }
 Single(o) == o \in {"get", "getnext", "set"}
 IdPerturbs == {"id_plus", "id_minus", "id_arb"}
-Scripted == perturb = "err" \/ (perturb \in IdPerturbs /\ errSt # 0)      \* the reply carries the scripted error-status
+ForeignPerturbs == {"wrong_comm", "wrong_ver"}        \* a message of another community / protocol version
+Scripted == perturb = "err" \/ (perturb \in IdPerturbs \cup ForeignPerturbs /\ errSt # 0)      \* the reply carries the scripted error-status
 NoDupSeq(s) == \A i, j \in DOMAIN s : i # j => s[i] # s[j]
 
 Init == /\ op \in OpsSet /\ ver \in Versions /\ db \in SUBSET Insts /\ perturb \in Perturbs
@@ -81,7 +83,7 @@ Init == /\ op \in OpsSet /\ ver \in Versions /\ db \in SUBSET Insts /\ perturb \
         /\ nr \in (IF op = "bulkget" THEN 0..Len(oids) ELSE {0}) /\ mr \in (IF op = "bulkget" THEN 0..2 ELSE {0})
         /\ (perturb = "oversize" => op = "bulkget")
         /\ (perturb = "set_other" => op \in {"set", "multiset"})   \* the agent confirms other values than the ones supplied
-        /\ errSt \in (IF perturb = "err" THEN ErrStatuses ELSE IF perturb \in IdPerturbs THEN IdErrStatuses ELSE {0})
+        /\ errSt \in (IF perturb = "err" THEN ErrStatuses ELSE IF perturb \in IdPerturbs \cup ForeignPerturbs THEN IdErrStatuses ELSE {0})
         /\ errIx \in (IF perturb = "err" THEN 0..(Len(oids) + 1) ELSE {0})
         /\ errEcho \in (IF perturb = "err" THEN BOOLEAN ELSE {TRUE})
         /\ clock = 10 /\ ticks = 0 /\ pc = "build" /\ sentId = 0 /\ checkedId = 0
@@ -123,7 +125,8 @@ Offending(r) == IF r.ei \in DOMAIN r.vbs THEN r.vbs[r.ei][1] ELSE <<>>
 Decode ==
   /\ pc = "decode" /\ pc' = "done"
   /\ outcome' =
-       IF ver # "v3" /\ ~resp.ver THEN Exc("SnmpError")
+       IF PinV1ErrBeforeCommunity /\ ver = "v1" /\ resp.es # 0 THEN ErrExc(resp.es, Offending(resp))     \* pinned V1MPM.decode: pdu.value first
+       ELSE IF ver # "v3" /\ ~resp.ver THEN Exc("SnmpError")
        ELSE IF ver # "v3" /\ ~resp.comm THEN Exc("SnmpError")
        ELSE IF PinErrBeforeId /\ resp.es # 0 THEN (IF IndexFails(resp) THEN Exc("IndexError") ELSE ErrExc(resp.es, Offending(resp)))
        ELSE IF resp.id # checkedId THEN Exc("InvalidResponseId")        \* Client._send: also for the id an ErrorResponse carries
@@ -144,7 +147,8 @@ Rejects      == (Finished /\ perturb \in IdPerturbs) => outcome.cls = "InvalidRe
 \* walks (Client.multiwalk) take NoSuchOID raised by one of their exchanges for the end of the subtree and return normally:
 \* that exception must only ever come from the response to the request actually sent
 WalkEndSound == (Finished /\ op \in {"multigetnext", "bulkget"} /\ outcome.kind = "exc" /\ outcome.cls = ErrClass(2)) => resp.id = sentId
-CommunityVersionRefused == (Finished /\ ver # "v3" /\ perturb \in {"wrong_comm", "wrong_ver"}) => (outcome.kind = "exc" /\ outcome.cls = "SnmpError")
+\* ... refused as such: whatever error-status the foreign message carries is not reported as this request's error
+CommunityVersionRefused == (Finished /\ ver # "v3" /\ perturb \in ForeignPerturbs) => (outcome.kind = "exc" /\ outcome.cls = "SnmpError" /\ outcome.status = 0)
 \* C08
 ErrorSurfaces ==
   (Finished /\ resp.es # 0 /\ perturb \notin {"wrong_comm", "wrong_ver"} \cup IdPerturbs) =>
